@@ -39,6 +39,7 @@ type UDPCase struct {
 	Events    []UDPEvSpec `json:"events"`
 	Conns     []ConnSpec  `json:"conns"`
 	TimeoutMs int         `json:"timeout_ms"`
+	Starved   bool        `json:"starved,omitempty"` // the directed "UDP silent for the whole lookupTimeout, TCP answers" case
 }
 
 type udpObs struct {
@@ -274,6 +275,19 @@ func genUDPCase(r *common.Rng, class string) UDPCase {
 	return c
 }
 
+// starvedCase: upstream is silent over UDP for the WHOLE lookup timeout (only a valid answer from a
+// wrong source address shows up), TCP answers both queries; the caller sets no deadline.
+func starvedCase() UDPCase {
+	g := &genCtx{name: "starved.test"}
+	c := UDPCase{Engine: "dnsudp", Class: "C", Name: g.name, Starved: true}
+	wrong := buildMsg(g.name, MsgSpec{ID: 4, Resp: true, RA: true, QType: 1, Answers: []RRSpec{{Kind: "A", TTL: 60, Addr: g.addr4()}}})
+	c.Events = []UDPEvSpec{{From: "other", Hex: hex.EncodeToString(wrong)}}
+	a := buildMsg(g.name, MsgSpec{ID: 4, Resp: true, RA: true, QType: 1, Answers: []RRSpec{{Kind: "A", TTL: 60, Addr: g.addr4()}}})
+	b := buildMsg(g.name, MsgSpec{ID: 6, Resp: true, RA: true, QType: 28, Answers: []RRSpec{{Kind: "AAAA", TTL: 60, Addr: g.addr6()}}})
+	c.Conns = []ConnSpec{{Frames: []FrameSpec{{Hex: hex.EncodeToString(a)}, {Hex: hex.EncodeToString(b)}}, End: "close"}}
+	return c
+}
+
 func evalUDPCase(c UDPCase, o *common.Options, rep *common.Report, drv *common.Driver) error {
 	return evalUDPCases([]UDPCase{c}, o, rep, drv)
 }
@@ -364,7 +378,11 @@ func reportUDP(c UDPCase, obs udpObs, pan any, model string, rep *common.Report)
 	}
 	// whenever UDP was truncated / unusable / unanswered and the TCP upstream answers both queries, the lookup succeeds
 	if (c.Class == "A" || c.Class == "C") && len(c.Conns) == 1 && !c.Conns[0].DialFail && strings.HasPrefix(obs.line, "fail") {
-		rep.Fail(common.OracleFailure{Engine: "dnsudp", Key: "udp:failure-despite-answers", Case: c, Detail: "upstream answers both queries (over UDP, or over TCP after a truncated/unusable/missing UDP answer), Lookup failed: " + obs.line})
+		key := "udp:failure-despite-answers"
+		if c.Class == "C" {
+			key = "tcp-fallback-starved-after-udp-timeout"
+		}
+		rep.Fail(common.OracleFailure{Engine: "dnsudp", Key: key, Case: c, Detail: "upstream answers both queries (over UDP, or over TCP after a truncated/unusable/missing UDP answer), Lookup failed: " + obs.line})
 	}
 	if obs.badQuery != "" {
 		rep.Fail(common.OracleFailure{Engine: "dnsudp", Key: "udp:bad-query", Case: c, Detail: obs.badQuery})
